@@ -84,6 +84,9 @@ def check(run):
     # tables and multi-column boxes split over several pages (cells that stall, column-span, avoided breaks)
     docs += fragcheck.wide_stream(run, rng, 1500 if thorough else 300, 'c01split',
                                   docs=[widegen.split_document(rng) for _ in range(1500 if thorough else 300)])
+    # inline formatting contexts with line breaking inside decorated inline boxes (end spacing, nested boxes, rtl)
+    docs += fragcheck.wide_stream(run, rng, 1500 if thorough else 300, 'c01inline',
+                                  docs=[widegen.inline_document(rng) for _ in range(1500 if thorough else 300)])
     kinds = collections.Counter()
     nontrivial = []
     for html, leaves, H, pages in docs:
@@ -99,7 +102,8 @@ def check(run):
     run.count('wide-conservation', len(docs), nontrivial, samples=[docs[0][0][-500:]] if docs else [])
     run.stream_info('wide-conservation', leaf_kinds=dict(kinds),
                     rule='widegen.py: blocks, inline markup, lists, tables (head/foot/colspan), multi-column, floats, '
-                         'absolutes, fixed, footnotes, flex, grid, display:none, all break values, orphans/widows; judged: every '
+                         'absolutes, fixed, footnotes, flex, grid, display:none, all break values, orphans/widows; paragraphs broken '
+                         'inside decorated / nested inline boxes (many words per line, start / end spacing, rtl); judged: every '
                          'word exactly once (repeatable: table head/foot, fixed; droppable: display:none), per-element order, '
                          'consecutive pages; non-trivial = more than one page')
     # ---- the listed finding is re-run every time
